@@ -30,7 +30,7 @@ extern "C" int LLVMFuzzerTestOneInput(const uint8_t *data, size_t size) {
     } else if (g_prop == "C17") {
         // [mode][pre-existing selector][read mode][flush] [n ops] then n x 4 op bytes (kind mod 10), the rest is the file content
         if (size < 5) return 0;
-        c.h = {data[0] % 4, data[1], data[2] % 2, 0, 0, data[3] & 1};
+        c.h = {data[0] % 4, data[1], data[2] % 2, 0, 0, data[3] & 3};
         size_t n = data[4] % 25, i = 5;
         for (size_t k = 0; k < n && i + 4 <= size; ++k, i += 4) c.ops.push_back(vf::Op{data[i] % 10, data[i + 1], data[i + 2] * 32 + data[i + 1], data[i + 3]});
         c.blob.assign(reinterpret_cast<const char *>(data + i), size - i);
